@@ -17,6 +17,7 @@ package main
 import (
 	"fmt"
 	"go/ast"
+	"go/token"
 	"go/types"
 	"strings"
 )
@@ -157,6 +158,12 @@ func c06ShiftCase(x *c06X, cf *FuncInfo, up bool, mode string) (bad []string) {
 			switch s.(type) {
 			case *ast.ForStmt, *ast.RangeStmt:
 				lp := x.loopShape(fr, s)
+				var post ast.Stmt
+				if lp == nil {
+					// a phase of a row walk that was split into several loops sharing one variable:
+					// for ; cond; v += 1 (the variable is declared before the loop and lives on after it)
+					lp, post = c06SharedVarLoop(x, fr, s)
+				}
 				if lp == nil {
 					x.undecided("row loop header at %s not recognised", x.c.P.Pos(s.Pos()))
 					return
@@ -164,6 +171,10 @@ func c06ShiftCase(x *c06X, cf *FuncInfo, up bool, mode string) (bad []string) {
 				assigned := c06AssignedIn(fr.info, lp.body)
 				if assigned[params[0]] || assigned[fr.recv] || assigned[lp.obj] {
 					x.undecided("the loop body assigns the count, the terminal's fields or the loop variable")
+					return
+				}
+				if post != nil && len(assigned) > 0 {
+					x.undecided("the body of a loop over a variable shared with other loops assigns variables declared outside it")
 					return
 				}
 				b, kind := c06ShiftLoop(x, fr, lp, p.st, R0, BOT, n0, dir, up)
@@ -180,7 +191,14 @@ func c06ShiftCase(x *c06X, cf *FuncInfo, up bool, mode string) (bad []string) {
 				case "mixed":
 					p.sawCopy, p.sawErase = true, true
 				}
-				next = append(next, p)
+				if post == nil {
+					next = append(next, p)
+					break
+				}
+				// the loop variable outlives the loop: the paths continue from the states in which the loop is left
+				for _, es := range c06LoopExits(x, fr, lp, post, p.st) {
+					next = append(next, &pathState{st: es, sawErase: p.sawErase, sawCopy: p.sawCopy, copyLoops: p.copyLoops, allLoops: p.allLoops})
+				}
 			default:
 				for _, o := range x.execStmt(fr, s, p.st, nil) {
 					if len(o.effs) > 0 {
@@ -227,6 +245,13 @@ func c06Dedupe(bad []string) []string {
 // and what the loop does ("copy", "erase", "mixed", "" when it has no effect on the interval).
 func c06ShiftLoop(x *c06X, fr *c05Frame, lp *c06Loop, s0 *c05State, R0, BOT c05Lin, n0 string, dir int64, up bool) (bad []string, kind string) {
 	e := x.e
+	if lp.init == nil && lp.rng == nil {
+		// a loop that continues with a variable of an earlier phase: what is known about the variable where the
+		// loop starts is kept under a name of its own, so that an arbitrary iteration still knows "at or beyond the start"
+		s0 = s0.clone()
+		e.ghostify(s0, lp.key, lp.key+"@loopstart")
+		e.disp[lp.key+"@loopstart"] = e.show(lp.key) + "@loopstart"
+	}
 	body := x.enter(fr, lp, s0)
 	if body == nil {
 		return nil, "" // the loop does not execute under this precondition
@@ -258,6 +283,7 @@ func c06ShiftLoop(x *c06X, fr *c05Frame, lp *c06Loop, s0 *c05State, R0, BOT c05L
 	inHi := R.addScaled(BOT, -1) // R - bottom <= 0
 	neg1 := func(l c05Lin) c05Lin { n := l.neg(); n.k += 1; return n }
 	copies, erases := 0, 0
+	var breaks []*c05State // states in which the loop is left by break at the start of a row of the interval
 	regions := []struct {
 		name string
 		pre  []c05Lin
@@ -282,6 +308,12 @@ func c06ShiftLoop(x *c06X, fr *c05Frame, lp *c06Loop, s0 *c05State, R0, BOT c05L
 				if len(o.effs) > 0 {
 					bad = append(bad, "a row "+rg.name+" is modified")
 				}
+				continue
+			}
+			if o.kind == 2 && len(o.effs) == 0 {
+				// left by break before anything was done for this row: as good as the loop condition
+				// failing here, provided no row this loop is responsible for remains (checked below)
+				breaks = append(breaks, o.st)
 				continue
 			}
 			if o.kind == 2 || o.kind == 3 {
@@ -339,13 +371,17 @@ func c06ShiftLoop(x *c06X, fr *c05Frame, lp *c06Loop, s0 *c05State, R0, BOT c05L
 	}
 	// coverage: where the loop starts and where it may stop
 	si := s0.clone()
-	e.transfer(fr, si, lp.init)
+	if lp.init != nil {
+		e.transfer(fr, si, lp.init)
+	}
 	Rinit := R
 	x.generic(si, lp) // keeps the bound on the side of the initial value
 	so := e.assume(fr, si.clone(), lp.cond, false)
 	// the first row visited
 	sFirst := s0.clone()
-	e.transfer(fr, sFirst, lp.init)
+	if lp.init != nil {
+		e.transfer(fr, sFirst, lp.init)
+	}
 	// order of the copies: sources must be read before they are overwritten
 	if kind == "copy" || kind == "mixed" {
 		if lp.asc != up {
@@ -376,6 +412,18 @@ func c06ShiftLoop(x *c06X, fr *c05Frame, lp *c06Loop, s0 *c05State, R0, BOT c05L
 		}
 		return false
 	}
+	// the loop stops where its condition fails or where a break is taken at the start of an iteration
+	stops := func(alts ...c05Lin) bool {
+		if !beyond(so, alts...) {
+			return false
+		}
+		for _, b := range breaks {
+			if !beyond(b, alts...) {
+				return false
+			}
+		}
+		return true
+	}
 	switch kind {
 	case "mixed":
 		first, lastBeyond := R0, neg1(inHi) // asc: start <= row0, exit R >= bottom+1
@@ -385,7 +433,7 @@ func c06ShiftLoop(x *c06X, fr *c05Frame, lp *c06Loop, s0 *c05State, R0, BOT c05L
 		if !startsAtOrBefore(first) {
 			bad = append(bad, "the loop does not start at the first row of [cursor row, bottom margin]")
 		}
-		if !beyond(so, lastBeyond) {
+		if !stops(lastBeyond) {
 			bad = append(bad, "the loop can stop before the last row of [cursor row, bottom margin]")
 		}
 	case "copy":
@@ -410,7 +458,7 @@ func c06ShiftLoop(x *c06X, fr *c05Frame, lp *c06Loop, s0 *c05State, R0, BOT c05L
 		if !startsAtOrBefore(first) {
 			bad = append(bad, "the loop that moves the lines does not start at the far end of [cursor row, bottom margin]")
 		}
-		if !beyond(so, done...) {
+		if !stops(done...) {
 			bad = append(bad, "the loop that moves the lines can stop while a line whose source is inside the interval has not been moved")
 		}
 	case "erase":
@@ -445,9 +493,108 @@ func c06ShiftLoop(x *c06X, fr *c05Frame, lp *c06Loop, s0 *c05State, R0, BOT c05L
 				}
 			}
 		}
-		if !beyond(so, done...) {
+		if !stops(done...) {
 			bad = append(bad, "the loop that erases the vacated lines can stop before the last of them: with a count beyond the lines that remain an old line survives")
 		}
 	}
 	return bad, kind
+}
+
+// c06SharedVarLoop recognises  for ; cond; v += 1|v++|v -= 1|v--  over an integer local v declared before the loop
+// (a row walk split into phases that share the variable). The second result is the post statement.
+func c06SharedVarLoop(x *c06X, fr *c05Frame, s ast.Stmt) (*c06Loop, ast.Stmt) {
+	t, ok := s.(*ast.ForStmt)
+	if !ok || t.Init != nil || t.Cond == nil || t.Post == nil {
+		return nil, nil
+	}
+	var id *ast.Ident
+	dir := 0
+	switch p := t.Post.(type) {
+	case *ast.IncDecStmt:
+		if pid, ok := unparen(p.X).(*ast.Ident); ok {
+			id, dir = pid, 1
+			if p.Tok == token.DEC {
+				dir = -1
+			}
+		}
+	case *ast.AssignStmt:
+		if len(p.Lhs) == 1 && len(p.Rhs) == 1 {
+			if pid, ok := unparen(p.Lhs[0]).(*ast.Ident); ok {
+				if v, ok := constInt(fr.info, p.Rhs[0]); ok && v == 1 {
+					switch p.Tok {
+					case token.ADD_ASSIGN:
+						id, dir = pid, 1
+					case token.SUB_ASSIGN:
+						id, dir = pid, -1
+					}
+				}
+			}
+		}
+	}
+	if id == nil || dir == 0 {
+		return nil, nil
+	}
+	obj, _ := fr.info.ObjectOf(id).(*types.Var)
+	if obj == nil || obj.IsField() || !isIntType(obj.Type()) || obj.Parent() == nil || obj.Parent() == obj.Pkg().Scope() {
+		return nil, nil
+	}
+	// a plain local of this function whose address is never taken and which no closure mentions
+	bad := false
+	ast.Inspect(fr.fi.Decl.Body, func(n ast.Node) bool {
+		switch u := n.(type) {
+		case *ast.FuncLit:
+			ast.Inspect(u, func(k ast.Node) bool {
+				if kid, ok := k.(*ast.Ident); ok && fr.info.ObjectOf(kid) == obj {
+					bad = true
+				}
+				return true
+			})
+			return false
+		case *ast.UnaryExpr:
+			if u.Op == token.AND {
+				if kid, ok := unparen(u.X).(*ast.Ident); ok && fr.info.ObjectOf(kid) == obj {
+					bad = true
+				}
+			}
+		}
+		return true
+	})
+	if bad {
+		return nil, nil
+	}
+	key := x.e.pathKey(fr, id)
+	if key == "" {
+		return nil, nil
+	}
+	return &c06Loop{key: key, obj: obj, asc: dir > 0, body: t.Body, cond: t.Cond}, t.Post
+}
+
+// c06LoopExits: the states in which a loop over a shared variable is left — at its first test or after one or
+// more complete iterations, by its condition failing or by a break. Each is kept apart (no join): what the next
+// phase may assume about the variable differs between "nothing was done" and "the last row done passed the test".
+func c06LoopExits(x *c06X, fr *c05Frame, lp *c06Loop, post ast.Stmt, s0 *c05State) []*c05State {
+	e := x.e
+	heads := []*c05State{s0.clone()}
+	if b := x.enter(fr, lp, s0); b != nil {
+		for _, o := range x.execList(fr, lp.body.List, b, nil) {
+			if (o.kind == 0 || o.kind == 1) && o.st != nil {
+				e.transfer(fr, o.st, post)
+				heads = append(heads, o.st)
+			}
+		}
+	}
+	var outs []*c05State
+	for _, h := range heads {
+		if so := e.assume(fr, h.clone(), lp.cond, false); so != nil {
+			outs = append(outs, so)
+		}
+		if sb := e.assume(fr, h, lp.cond, true); sb != nil {
+			for _, o := range x.execList(fr, lp.body.List, sb, nil) {
+				if o.kind == 2 && o.st != nil {
+					outs = append(outs, o.st)
+				}
+			}
+		}
+	}
+	return outs
 }
